@@ -197,7 +197,7 @@ Proof.
     destruct (select_loop rest (S idx) best') as [rest' r'] eqn:Hr.
     inversion H; subst cs1 r. clear H.
     apply IH in Hr. destruct Hr as [-> Hr]. split.
-    { cbn [map]. unfold isp at 1. rewrite Hc. reflexivity. }
+    { cbn [map]. change (isp c) with (snd (is_send_pending c)). rewrite Hc. reflexivity. }
     destruct r' as [i|].
     + destruct Hr as [[br Hbr]|[Hle (c2 & Hn & Hp2)]].
       * subst best'. destruct pending.
@@ -235,7 +235,7 @@ Proof.
     rewrite (map_nth_error isp _ _ Hi) in H.
     destruct (next_packet maxp (isp ci)) as [p c'] eqn:Hn.
     inversion H; subst. right. split; [reflexivity|].
-    eexists i, ci, _, p, c'. repeat split; try eassumption. reflexivity.
+    eexists i, ci, _, p, c'. repeat split; eassumption.
   - destruct Hs as [_ Hall]. inversion H; subst. left. repeat split. assumption.
 Qed.
 
